@@ -230,6 +230,8 @@ Proof.
     destruct (build_iter p) as [t0|] eqn:E0; [|discriminate]. cbn [rbind] in Hb.
     destruct (IH t0 Hok eq_refl) as (B1 & B2 & B3 & B4 & B5 & B6 & B7).
     unfold transfer_generic in Hb.
+    destruct (engine_eqb (engine_of t0) d) eqn:Ee0.
+    { injection Hb as <-. unfold built. simpl. repeat split; auto. }
     assert (G : forall t1, built env p t1 -> (if engine_eqb (engine_of t1) d then Ok t1 else do c <- Ok t1; Ok (Xfer d c)) = Ok t -> built env (PXfer d p) t).
     { intros t1 (C1 & C2 & C3 & C4 & C5 & C6 & C7) H.
       destruct (engine_eqb (engine_of t1) d) eqn:Ee.
